@@ -174,7 +174,7 @@ CHECKS = {
              'on the async client, each reply faulted on its own (per-request keyed fault scripts) and judged on its own. '
              'match.retried: the client retries on the identity error; 2-3 successive deliveries, each with its own '
              'fault, must each be matched afresh against the same request.'
-             ' Open zones narrowed: next to a null-id entry every call keeps its position and a call without a response of its own id stays unanswered (strict); in non-strict mode a handed-out response is linked to the request with the same id or to none. Long ids (composite strings, 45-digit integers) get strangers that differ in the middle only.',
+             ' Open zones narrowed: next to a null-id entry every call keeps its position and a call without a response of its own id stays unanswered and a repeated id is refused whatever null-id entries stand in front of, between or behind the two occurrences (strict; composite wire fault null_and_dup); in non-strict mode a handed-out response is linked to the request with the same id or to none. Long ids (composite strings, 45-digit integers) get strangers that differ in the middle only.',
         note='Trusted: ref_client.match_single / match_batch (Appendix F.2). Open zones (null ids inside a batch array, '
              'non-strict mismatches) are not judged.',
         technique='deterministic simulation: enumerated response-leg faults on real client-server exchanges, reference matcher',
